@@ -21,6 +21,10 @@ ALLOWED = {'payload_offset', 'payload_length'}
 def run(ctx):
     from . import c28
     c28._truncate(ctx, ctx.facts(), rule='FLOW-C42d')
+    # rebuild_indexes (called by vacuum) writes the index segments at payload_region_end() = cached_payload_end, whose open-time
+    # seed must cover every frame's payload: shared with the C24 check (COVER-C24e)
+    from . import c24
+    c24.seed_coverage(ctx, ctx.facts())
     ctx.rule('WMC-C42a', 'vacuum stores only Frame.payload_offset / payload_length')
     ctx.rule('FLOW-C42b', 'payload written for a frame = payload read for the same frame id; offset = cursor; only for Active frames')
     ctx.rule('MPT-C42c', 'commit(ok) first; Ok only via rebuild_indexes(ok) -> sync_all(ok)')
